@@ -62,7 +62,7 @@ def _from_text(text: str, enum_class: Any) -> int:
     tokens = text.split()
     for t in tokens:
         token = t.upper()
-        if token.startswith("FLAG") and token[4:].isdecimal():
+        if token.startswith("FLAG") and token[4:].isdecimal() and len(token) <= 6:
             # An unnamed flag, rendered by _to_text() as FLAGn (see below).
             flags |= 1 << int(token[4:])
         else:
